@@ -59,19 +59,24 @@ CHECKS.update({
               "Trusted: TLC; strconv.Quote is the uninterpreted quoting function.", "DESIGN.md 6 C16",
               technique="TLA+ executable specification of the renderings evaluated by TLC over the complete low input space, compared with records of the real functions", engine="ops-trace"),
     "C17": _c("The kqueue backend of the working tree runs on a simulated kqueue; histories of Add/Remove/Close over directories whose contents change (create, write, chmod, truncate, remove, "
-              "rename in/out/over, mkdir, rmdir, rm -r), through plain and symlinked watch paths, are replayed; at every quiescent observation the simulator's open-descriptor set is compared "
-              "with the watch table, their number with the specification's watch set, WatchList with the user's paths; nothing may be open after Close.",
-              "Trusted: TLC, the simulator (harness/simkq/unix) as the kernel; its NOTE_* rules are FreeBSD's documented ones and are calibrated against the repository's recorded kqueue expectations. "
+              "rename in/out/over, mkdir, rmdir, rm -r), through plain and symlinked watch paths, with an injected kevent failure, are replayed; at every quiescent observation the simulator's "
+              "open-descriptor set is compared with the watch table, their number with the specification's watch set, WatchList with the user's paths; nothing may be open after Close. "
+              "A bounded model of the backend's five tables (KqueueTables.tla) is model-checked first, and every behaviour of it up to 3 (thorough: 4, sampled 5) steps is generated by TLC, "
+              "replayed with the reader held back and released at the model's drains, and the observed table sizes are compared with the model's.",
+              "Trusted: TLC, the simulator (harness/simkq/unix) as the kernel; its NOTE_* rules are FreeBSD's documented ones and bin/kqcalibrate reproduces all 40 applicable recorded freebsd/kqueue expectations of the repository's testdata with it. "
               "No real BSD kernel is observed. Pre-existing defects of the backend are listed in known-findings.txt.",
               "DESIGN.md 6 C17", engine="kq-trace"),
     "C18": _c("Same pipeline: the events delivered for sequential histories inside one or several watched directories (name re-use, overwrite by rename, moves between watched directories, "
-              "bursts of more than ten pending kevents) are matched against the specification's expected events (Create once per new entry, Remove-then-Create for a replaced name, "
-              "union of operations for merged kevents, user spelling of the watched path).",
+              "bursts of more than ten pending kevents, sixteen shapes of several operations on the same entries made faster than the reader wakes up, the working directory watched as '.') "
+              "are matched against the specification's expected events (Create once per new entry, Remove-then-Create for a replaced name, union of operations for merged kevents - for "
+              "bursts computed from the NOTE_* bits each knote accumulated and the final directory listing - and the user spelling of the watched path); KqueueTables.tla (CreateOnce, Covered) "
+              "is model-checked first and its behaviours are replayed as for C17.",
               "Trusted as for C17.", "DESIGN.md 6 C18", engine="kq-trace"),
     "C19": _c("Recursive watches over trees whose sibling names share string prefixes (dir1/dir10, sub/sub2, r/a and r/ab): directories created one level at a time, inner renames, "
               "re-creation under a renamed-away name, file operations at every depth, Remove of one of two roots; every event name is compared with the entry's true current path, which the "
               "specification maintains component-wise (Ideal!MoveDir / IsUnder).",
-              "Trusted as for the other inotify checks. Bursts (mkdir -p) and moves across the tree boundary are not generated, as the property excludes them. What WatchList shows for a recursive watch is not judged.",
+              "Trusted as for the other inotify checks. Bursts (mkdir -p) and moves across the tree boundary are not generated, as the property excludes them (a directory renamed twice, or replaced "
+              "by a self-referencing link, before the reader gets to it is). What WatchList shows for a recursive watch is not judged.",
               "DESIGN.md 6 C19"),
     "C20": _c("ztest.Diff on all pairs of line sequences over {a,b,c} up to 4 (quick) / 5 (thorough) lines plus seeded long random texts, ztest.DiffMatch on all bounded patterns x texts; every "
               "output is parsed into hunks and judged by the TLA+ oracle Diff.tla (empty iff equal, hunks apply to the first text giving the second, headers agree, context <= 3, matcher semantics).",
